@@ -1,25 +1,152 @@
 """Claims registered in MANIFEST.json (regenerate with tools_gen_manifest.py)."""
 
 NOTES = (
-    "All checks are static analysis of /repo's current source (python ast; no odc-geo code is imported or run). "
-    "Each claim lists the structural clauses it decides; each clause is a necessary condition of the property, "
-    "not the behaviour itself. Exit 2 + ANALYSIS-ERROR means the analysis cannot stand behind a verdict "
-    "(vanished anchor, instance floor missed). See DESIGN.md."
+    "All checks are static analysis of /repo's current source (python ast; no odc-geo code is imported or run; rule R-API "
+    "additionally looks up names in the third-party libraries installed in /venv). Each claim lists the structural clauses it "
+    "decides; each clause is a necessary condition of the property, not the behaviour itself. Exit 1 + VIOLATION names rule, "
+    "construct id and file:line; exit 2 + ANALYSIS-ERROR means the analysis cannot stand behind a verdict (vanished anchor, "
+    "instance floor missed). Known findings are in known_findings.json. See DESIGN.md."
 )
 
-CLAIMS = {
-    "C01": {
-        "text": "Decides, for every function of the package that combines two or more CRS-tagged operands (discovered from "
-        "annotations, binary dunders of tagged classes and CRS-wrapping decorators - about 55 today, including every "
-        "operation the property lists): each normal exit is reached only through a path condition implying equal CRSs "
-        "(None included), a call handing all operands to a function already proven guarding, or a re-projection; "
-        "mismatch branches raise a ValueError subclass; asserts and `is not None` conjunctions do not count; decorated "
-        "shapely delegates call their own name (R-WRAPNAME); constructed results carry an operand's CRS (R-RETAG). "
-        "Decides these parts, not the behaviour: that CRS.__eq__ identifies equal CRSs and what shapely returns is not decided.",
-        "note": "trusts annotations as the discovery mechanism, pyproj/shapely semantics, and the one-line-per-entry table of "
-        "non-combining functions printed in the evidence",
-        "technique": "must-pass-through dataflow over a structured CFG + interprocedural guard summaries (ast)",
-    },
-}
+_NOTE = (
+    "trusted base: CPython ast = what runs; annotations truthful; semantics of shapely/pyproj/numpy/GDAL/dask/xarray/locks; the "
+    "role, lexicon and exception tables in /verif/odcverif/rules (printed in evidence). A pass means no structural cause found."
+)
+_D = "Decides these parts, not the behaviour. Undecided: "
 
-NOT_APPLICABLE = {f"C{n:02d}": "check under construction in this session (static rules designed in DESIGN.md section 4)" for n in range(2, 21)}
+CLAIMS = {
+    "C01": dict(
+        text="Every function combining two or more CRS-tagged operands (discovered from annotations, binary dunders of tagged classes, "
+        "CRS-wrapping decorators; includes every operation the property lists) reaches each normal exit only through a path condition "
+        "implying equal CRSs (None included), a call handing all operands to a function proven guarding (never returning normally on a "
+        "mismatch), or a re-projection; mismatch branches raise a ValueError subclass; asserts and `is not None` conjunctions do not count; "
+        "decorated shapely delegates call their own name with their own arguments; constructed results carry an operand's CRS. "
+        + _D + "that CRS.__eq__ identifies equal CRSs, what shapely returns.",
+        technique="must-pass-through dataflow over a structured CFG + interprocedural guard summaries (ast)"),
+    "C02": dict(
+        text="No x/y transposition in crop/zoom/pad/flip/rotate/translate/buffer/neighbour arithmetic, coordinates, footprint, bbox "
+        "(axis-tag inference over ~450 sink/unpack/zip/helper/arith instances); footprint polygon and bounding box push the same four pixel "
+        "corners through the transform and the box is min/max over them; every view is re-tagged with the receiver's CRS; _shape/_affine/_crs "
+        "assigned only in the constructor so the cached extent cannot go stale; outward rounding of shapes in crop/zoom/pad; options forwarded. "
+        + _D + "inverse relation of pix2wld/wld2pix, signs and half-pixel offsets, rotation about the centre, GCP fit error.",
+        technique="axis-tag (phantom type) inference + sibling agreement + field-write ownership (ast)"),
+    "C03": dict(
+        text="Rounding roles in compute_axis_overlap/roi_from_points/scaled_*_roi/_pick_read_scale (interval starts round down, stops up); per-axis "
+        "helpers get quantities of one axis, rows/cols not swapped; the point envelope is clamped before the int32 cast; finite filter and empty "
+        "case precede the envelope, clip per axis; point transform goes src.pix2wld -> clamp -> transformer(src->dst) -> dst.wld2pix and back swaps; "
+        "envelopes are mapped in the right direction and clipped to the right shape; empty source => empty destination; scale=min(scale2), "
+        "read_shrink from scale, one shrink factor for zoom/affine/scale-up; ttol/stol wired straight. "
+        + _D + "sufficiency of boundary sampling and padding under curvature, ties of floor/ceil.",
+        technique="role-directed rounding lint + guard dominance + def-use over a structured CFG (ast)"),
+    "C04": dict(
+        text="The assembler's and tilings' third-party references exist in the installed numpy; tile counts round up and the last tile is clamped with "
+        "min(.., N) behind the index validation; (y,x) order kept through Tiles/VariableSizedTiles/clip_tiles/BlockAssembler; both tilings implement "
+        "every RoiTiles member; BlockAssembler reads each block through its own part of the 3-way intersection and writes through the window's part "
+        "into a fill-initialised window. " + _D + "disjointness/cover/inverse lookup for all sizes and mosaic equality (enumeration, another family).",
+        technique="link check against installed libraries + axis-tag inference + rounding roles (ast)"),
+    "C05": dict(
+        text="Thin: the parallel writer's imports/attributes resolve in the installed dask/tifffile/numpy; tile sizes originate from "
+        "adjust_blocksize/norm_blocksize whose returns are align_up(.,16); the bag list handed to the multi-part writer is the reversed level "
+        "list (overviews first) and cog_tidx walks levels reversed; axis-order dispatch total over YX/YXS/SYX; padded shapes round up; options "
+        "forwarded. " + _D + "decoded pixels, offsets/byte counts, padding size, half-size overviews, schedules (runtime bytes).",
+        technique="link check + value-origin flow to sinks + order-tag propagation (ast)"),
+    "C06": dict(
+        text="Stream order of every concatenation / constructor slot / insert in merge, flush_rhs, flush, finaliser, collate (left_data < parts < data, "
+        "lhs < rhs, header left, no writer for the header merge); each write with self.nextPartId consumes one id and one credit and records its "
+        "receipt; append logs what it stores; a spill never takes the last credit (linear bound of the early-return test over the reserve's value "
+        "set); every non-final write is behind a comparison with min_write_sz; part-id stride = credits per chunk, first id min_part+1. "
+        + _D + "byte-for-byte equality over all partitionings/merge trees (needs the numeric invariant over interleavings: model checking).",
+        technique="typed stream-position lint + pairing/dominance checks + linear bound over value sets (ast)"),
+    "C07": dict(
+        text="The edge-length test of densify is a translation-invariant (squared) length over both axes compared with the (squared) resolution and used "
+        "to densify long edges; original vertices retained; interpolation steps by the resolution; holes densified; all eight geometry kinds dispatched; "
+        "same CRS returns the receiver, CRS-less raises ValueError, both before any transform; the densified geometry is what gets projected; "
+        "source/target order through transformer_to_crs -> _make_crs_transform -> Transformer.from_crs; result tagged with the target CRS. "
+        + _D + "vertex-exact agreement with pyproj, round-trip precision, area/length preservation.",
+        technique="affine-space (position/displacement/length) typing of the predicate + guard dominance (ast)"),
+    "C08": dict(
+        text="Lower edge rounds down, upper edge and pixel count round up, at least one pixel (snap helpers); x-quantities only with x-resolution/x-anchor, "
+        "y with y in from_bbox; edge chosen by the sign of the same-axis resolution, anchor offset removed before and restored after snapping, scaled "
+        "by |res|; anchor literals total with EDGE->0, CENTER->0.5, tight->floating; tol/anchor/tight/shape/resolution reach from_bbox from "
+        "from_geopolygon, zoom_to, compute_output_geobox, to_crs. " + _D + "cover/minimality/anchor offset for arbitrary floats.",
+        technique="rounding roles + axis-tag inference + option-forwarding lint (ast)"),
+    "C09": dict(
+        text="Writer/reader attribute and encoding key tables of the xarray registration agree (every key a reader looks for is written, every core key "
+        "written is read), SPATIAL_ATTRIBUTES covers reader keys, GeoTransform numbers reach Affine.from_gdal in parsed order, col->x/row->y; "
+        "DataArray and Dataset reprojection both register the destination at their own level (coords from xr_coords(dst), attrs pruned, stale CRS "
+        "coordinate dropped); geobox options packed/extracted/accepted under the same names, kw split between geobox and warp options. "
+        + _D + "equality of the recovered GeoBox for rotated/GCP/1-pixel cases, survival under operation histories (xarray semantics).",
+        technique="writer/reader table agreement + sibling-obligation check (ast)"),
+    "C10": dict(
+        text="Thin: paste is reported only behind all four eligibility guards (scale+translation only, near-integer scale with stol, unit scale on both "
+        "axes after shrink, whole-pixel translation of tx and ty with ttol), only on the same-CRS branch, only when neither padding nor alignment "
+        "was requested, with ttol/stol wired straight; one read_shrink feeds zoom_out, Affine.scale and scaled_up_roi; snap_affine passes rotated "
+        "input through and writes components back into their slots with the right tolerances; pixels warped into a converted (int8/bool) array are "
+        "copied back. " + _D + "pixel identity with GDAL's nearest-neighbour warp.",
+        technique="guard-completeness (path-condition dominance) + reaching definitions (ast)"),
+    "C11": dict(
+        text="Thin: `return gbox` only under all five conditions (same CRS, resolution auto/same, no shape, default anchor, plain GeoBox); the output box "
+        "derives from the buffered footprint in the requested CRS; tol/anchor/tight/shape/resolution forwarded unchanged to from_bbox; no x/y swap "
+        "in the fit resolution. " + _D + "enclosure under curvature, buffer sufficiency, resolution fit, utm zone arithmetic (numeric).",
+        technique="guard-completeness + option-forwarding lint (ast)"),
+    "C12": dict(
+        text="A possibly-empty footprint intersection is tested before its bounds are used; pixel range of a bbox rounded outwards and clamped by role, "
+        "inclusive tile ranges; (y,x) order kept through locate/range/product; geometry queries keep an index iff the query is not disjoint from "
+        "the extent of the tile at that index; linear path maps each tile's own box through A (~src*dst), rounds outwards, stores under the same "
+        "index; general path queries with each tile's own extent. " + _D + "completeness under reprojection of tile edges, sliver threshold.",
+        technique="maybe-empty value flow + guard dominance + rounding roles (ast)"),
+    "C13": dict(
+        text="One fill resolver for uncovered chunks, covered chunks and the in-memory path (covered chunks go through rio_reproject whose float NaN "
+        "default precedes every warp); precedence dst_nodata > src_nodata > NaN(float) > 0; a missing dependency entry is a constant fill block; "
+        "dependencies computed dst.grid_intersect(src); dst_nodata defaults to src_nodata before the path split; the code path exists in the "
+        "installed numpy/dask/rasterio; disjoint rasters cannot raise from an empty footprint; nodata/resampling forwarded. "
+        + _D + "pixel equality under all chunkings and orders (runtime).",
+        technique="sibling-producer agreement on a resolver + link check + value flow (ast)"),
+    "C14": dict(
+        text="(x,y) index vs (y,x) shape/resolution orders kept throughout GridSpec; tile origin chosen by the sign of the same-axis resolution, bins "
+        "indexed by their own axis index; bin lookup rounds down; Bin1D equality complete over its slots; polygon queries reconcile the CRS first. "
+        + _D + "gap/overlap freedom, slippy-map constants, 1e-8 tolerance (numeric).",
+        technique="axis-tag inference + sign-role check (ast)"),
+    "C15": dict(
+        text="Thin: an existing destination is removed only under overwrite, raises an OS error otherwise, and file sinks of _write_cog/"
+        "write_cog_layers are reached only through check_write_path(fname, overwrite); GDAL block sizes come from adjust_blocksize(blocksize, nx|ny) "
+        "(multiples of 16); every option of to_cog/write_cog reaches _write_cog/write_cog_layers. " + _D + "pixels/dtype/transform/nodata after GDAL.",
+        technique="guard dominance + reaching definitions to sinks + option-forwarding lint (ast)"),
+    "C16": dict(
+        text="Incompatible grids always rejected before grid arithmetic (CRS guard; four isclose guards matched by Affine slot; near-integer guard "
+        "dominates each round(); ValueError; translation direction ~b*a); union uses min for left/bottom and max for right/top, intersection the "
+        "reverse, each accumulator paired with its own component, results in (l,b,r,t) order; empty intersection normalised on both axes; "
+        "overlap_roi clamps x with nx and y with ny; BoundingBox.round rounds outwards; result CRS from the reference. "
+        + _D + "'smallest', 'exactly the shared pixels', associativity on floats, half-pixel bound of snap_to.",
+        technique="guard-completeness + lattice-role lint + CRS-guard dataflow (ast)"),
+    "C17": dict(
+        text="No wrapping cast in the point envelope; finite filter over both coordinates and the empty case first; roles in scaled_down_roi (start down, "
+        "stop up), roi_pad (max(0,.)/min(n,.)), roi_from_points (align_down/align_up, clip x with nx, y with ny); the two slice-intersection "
+        "implementations agree on max(starts)/min(stops) and on the disjoint tests. "
+        + _D + "agreement with numpy on every slice pair (exhaustive enumeration, another family).",
+        technique="bounded-cast lint + rounding/clamp roles + sibling agreement (ast)"),
+    "C18": dict(
+        text="Upload initiation only inside a lock region; inside each region the started-state is re-evaluated and the initiation is control-dependent "
+        "on not-started; the new id is published to the shared variable before release; every write_part/finalise receiver comes from "
+        "_ensure_init() on every path; the local lock provider returns the registered lock under one key; limit accessors read their own key and "
+        "default max > min. " + _D + "interleavings of the distributed lock/variable (trusted), file contents of the sink.",
+        technique="lock-region / double-checked-locking lint over path conditions + reaching definitions (ast)"),
+    "C19": dict(
+        text="Per value class: hash fields are implied equal on every True path of __eq__ (modulo functional dependencies derived from __init__ through "
+        "lossless fields); every field __eq__ needs feeds __dask_tokenize__; tokens use no id()/uuid/random/time; no field compared by identity; "
+        "pickle keys written = consumed and cover __eq__ fields; slot classes compare every non-cache slot; cache key functions read every "
+        "parameter and return canonical primitives; objects whose id() is a cache key are pinned by a plain never-cleared dict; source/target "
+        "pass-through of the transformer. Two known findings (CRS hash vs disjunctive eq; raw pyproj object as CRS cache key). "
+        + _D + "reflexive/symmetric/transitive on concrete values, existence of pyproj-equal spellings.",
+        technique="field-set agreement between eq/hash/token/pickle + cache-key lint (ast)"),
+    "C20": dict(
+        text="Thin: snap helpers' rounding roles and at-least-one-pixel; endpoint by sign of the resolution, anchor offset in/out; snap_affine rotation "
+        "pass-through, slots and tolerances; non-finite input handled first in split_float/maybe_int/is_almost_int; align_up/align_down/pow2 "
+        "directions; Bin1D lookup rounds down and its equality is complete; x-quantities with x in affine_from_axis and friends; parameters used. "
+        + _D + "every numeric contract (fraction range, tolerance agreement, idempotence, decomposition, fits).",
+        technique="rounding roles + guard-first lint + axis-tag inference (ast)"),
+}
+for _c in CLAIMS.values():
+    _c["note"] = _NOTE
+
+NOT_APPLICABLE = {}
